@@ -120,6 +120,7 @@ def run_interpreted(p, args, compiled_out, deep=False):
     return flatten(r), tap
 
 
+SLOPE_OUTPUT = {"mk_sens_slope": 0, "mann_kendall_trend_1d": 2, "_mann_kendall_trend_gu": 2, "_mann_kendall_trend_gu_nd": 2, "mann_kendall_trend_yxt": 2}
 ROBUST_PROGRAMS = {"ws2dwcv", "ws2dwcvp", "_ws2dwcvp"}
 ROBUST_LINES = {("mad = np.median(np.abs(r_arr[", "u_arr = r_arr /"): ["mad", "w_temp", "s"]}
 
@@ -229,10 +230,19 @@ def compare_case(R, p, dtype, cls, args, deep=False):
         R.violation(f"C13:shape:{name}", f"{name}: compiled returns {len(cflat)} arrays, interpreted {len(iflat)}", case)
         return
     lam_differs = False
+    atol0 = atol
     for k, (c, i) in enumerate(zip(cflat, iflat)):
         if c.shape != i.shape:
             R.violation(f"C13:shape:{name}", f"{name}: output {k} shapes {c.shape} vs {i.shape}", case)
             return
+        atol = atol0
+        if dtype == "float32" and name in SLOPE_OUTPUT and k == SLOPE_OUTPUT[name]:
+            # Sen's slope is a median of differences of the data: single precision of the *data* (the two middle slopes
+            # may cancel, e.g. (-4.25 + 4.23) / 2), i.e. an absolute allowance of a few float32 ulps of max|x|
+            xin = np.asarray(args[0], dtype=np.float64)
+            xin = xin[np.isfinite(xin)]
+            if xin.size:
+                atol = max(atol0, 8 * 2.0 ** -23 * float(np.max(np.abs(xin))))
         if c.dtype.kind == "f" or i.dtype.kind == "f":
             if not close(c, i, rtol, atol):
                 if name in SELECTORS and c.size == max(1, c.size) and k >= 1:
